@@ -3,7 +3,7 @@ use crate::errors::Result;
 use crate::server::{AddVersionResult, GetVersionResult, Server, SnapshotUrgency, SyncOp};
 use crate::storage::StorageTxn;
 use crate::Error;
-use log::{info, trace, warn};
+use log::{info, trace};
 use serde::{Deserialize, Serialize};
 use std::str;
 
@@ -197,9 +197,7 @@ async fn apply_version(
             }
         }
         if let Some(o) = svr_op {
-            if let Err(e) = apply::apply_op(txn, &o).await {
-                warn!("Invalid operation when syncing: {e} (ignored)");
-            }
+            apply::apply_op_ignoring_invalid(txn, &o).await?;
             transformed_server_ops.push(o);
         }
         *local_ops = new_local_ops;
